@@ -451,12 +451,20 @@ package shwap
 //@ pure func nsLt(a libshare.Namespace, b libshare.Namespace) bool
 //@ pure func nsLe(a libshare.Namespace, b libshare.Namespace) bool
 
-// The leaf construction loop (namespace prefix + share bytes per share) is not verified: trusted.
-//@ func (RowNamespaceData).verifyInclusion
-//@   property C02
-//@   trusted
+// (call-site view: nmtNsVerified is the NMT namespace verification of the row's shares against the root;
+// the body view below proves what is this function's own: one leaf per share, in order, each leaf the
+// share's own namespace followed by the share's bytes, and the verification is asked for the requested
+// namespace, over exactly these leaves, against the root it was given.)
+//@ extern (github.com/celestiaorg/celestia-node/share/shwap.RowNamespaceData).verifyInclusion
 //@   requires rnd.Proof != nil
 //@   ensures result ==> nmtNsVerified(deref(rnd.Proof), namespace.data, rnd.Shares, rowRoot)
+//@ func (RowNamespaceData).verifyInclusion
+//@   property C02 C01
+//@   noframe
+//@   requires rnd.Proof != nil
+//@   callpre Proof).VerifyNamespace: $arg0 == deref(rnd.Proof) && $arg2 == namespace.data && $arg3 == leaves && $arg4 == rowRoot && len(leaves) == len(rnd.Shares)
+//@   loop 1: invariant -1 <= rangeindex && rangeindex < len(rnd.Shares) && len(leaves) == rangeindex + 1
+//@   loop 1: hint len(leave) == len(sh.data) + 29 && (forall j int :: 0 <= j && j < 29 ==> leave[j] == sh.data[j]) && (forall j int :: 0 <= j && j < len(sh.data) ==> leave[29 + j] == sh.data[j])
 
 // One row: shares present <=> inclusion proof, no shares <=> absence proof; the namespace is inside the
 // row's range; the NMT namespace proof verifies against *this* row's root.
